@@ -589,17 +589,23 @@ func (e *batcherEngine) inlinable(call *ssa.Call, st *bFrame) *ssa.Function {
 		return nil
 	}
 	cf := staticCalleeFn(call)
-	if cf == nil || len(cf.Blocks) == 0 || !e.relevant[cf] || e.a.flushFns[cf] || cf == e.a.refCount || cf == e.fn {
+	if cf == nil || len(cf.Blocks) == 0 || !e.relevant[cf] || e.a.flushFns[cf] || cf == e.a.refCount {
+		return nil
+	}
+	if cf == e.fn {
+		e.report(false, "exploration of "+fnName(e.fn), call, "", "recursive function that touches the pending slot; undecided")
 		return nil
 	}
 	if len(cf.Params) != len(call.Call.Args) {
 		return nil
 	}
 	if st != nil && st.depth >= batcherInlineDepth {
+		e.report(false, "exploration of "+fnName(e.fn), call, "", "helpers that touch the pending slot are nested deeper than the exploration follows; undecided")
 		return nil
 	}
 	for f := st; f != nil; f = f.up {
 		if f.callee == cf {
+			e.report(false, "exploration of "+fnName(e.fn), call, "", "recursive helper that touches the pending slot; undecided")
 			return nil
 		}
 	}
